@@ -39,7 +39,7 @@ type c06Prog struct {
 var c06Kinds = []string{"sig-removed", "key-removed", "sig-other-entry", "sig-flip", "payload-changed", "foreign-key", "foreign-logid", "next-changed", "time-changed"}
 
 func genC06(t *rapid.T) c06Prog {
-	cfg := sim.GenConfig{MaxReplicas: 3, MaxOps: ev.Scale(24, 50), MinOps: 2, Codecs: []int{0, 1, 2}, AppendBias: 3, NoRebuild: true}
+	cfg := sim.GenConfig{MaxReplicas: 3, MaxOps: ev.Scale(24, 50), MinOps: 2, Codecs: []int{0, 1, 2}, AppendBias: 3, NoRebuild: true, WithLoad: true}
 	w := sim.Gen(t, cfg)
 	p := c06Prog{World: w}
 	p.Src = rapid.IntRange(0, w.Replicas-1).Draw(t, "src")
@@ -97,7 +97,10 @@ func runC06(tb ev.TB, p c06Prog) ev.Result {
 	ctx := context.Background()
 	w := sim.Run(tb, &p.World, func(tb ev.TB, w *sim.World, info *sim.OpInfo) {
 		switch info.Op.Kind {
-		case "append", "join":
+		case "append", "join", "load":
+			if info.Op.Kind == "load" && p.World.Codec == 2 {
+				break // the legacy codec cannot read back the v2 entries it writes (not claimed)
+			}
 			sim.MustOK(tb, info) // includes: entries produced by Append merge under this codec
 		}
 		if info.Refused && !info.Skipped && info.Err == nil {
